@@ -1,0 +1,354 @@
+//! Verification hooks for the object-store server (compiled only with
+//! `--cfg gothenburgbitfactory_taskchampion_verif`): an in-memory [`Service`] whose every request
+//! passes a gate supplied by the verification harness, constructors sharing one derived key, and a
+//! deterministic replacement for the random cleanup / urgency draw.
+use super::iter::AsyncObjectIterator;
+use super::server::CloudServer;
+use super::service::{ObjectInfo, Service};
+use crate::errors::{Error, Result};
+use crate::server::encryption::Cryptor;
+use crate::server::Server;
+use async_trait::async_trait;
+use serde_json::{json, Value};
+use std::collections::{BTreeMap, HashMap};
+use std::sync::{Arc, Mutex};
+
+/// One stored object.
+#[derive(Clone, Debug)]
+pub struct MemObject {
+    pub value: Vec<u8>,
+    /// creation time, seconds since the UNIX epoch
+    pub creation: u64,
+}
+
+/// The object store shared by all clients.
+#[derive(Default)]
+pub struct MemStore {
+    pub objects: BTreeMap<String, MemObject>,
+    /// creation time given to newly created objects (None: the current time)
+    pub creation_for_new: Option<u64>,
+}
+
+pub type SharedStore = Arc<Mutex<MemStore>>;
+
+/// What the gate decides for a request.
+#[derive(Clone, Copy, Debug, PartialEq, Eq)]
+pub enum Fault {
+    /// carry the request out
+    None,
+    /// return an error without carrying it out
+    FailBefore,
+    /// carry it out, then return an error
+    FailAfter,
+}
+
+/// The harness's view of every object-store request.
+#[async_trait]
+pub trait Gate: Send {
+    /// Called before each request (and each page of a listing) with a description of it.
+    async fn request(&mut self, client: usize, req: Value) -> Fault;
+    /// Called after the request was carried out, with its result.
+    fn reply(&mut self, client: usize, res: Value);
+}
+
+/// An in-memory object store client.
+pub struct MemService {
+    store: SharedStore,
+    gate: Box<dyn Gate>,
+    client: usize,
+    /// number of objects fetched per listing request
+    page_size: usize,
+}
+
+impl MemService {
+    pub fn new(store: SharedStore, gate: Box<dyn Gate>, client: usize, page_size: usize) -> Self {
+        Self {
+            store,
+            gate,
+            client,
+            page_size: page_size.max(1),
+        }
+    }
+
+    fn now() -> u64 {
+        std::time::SystemTime::now()
+            .duration_since(std::time::UNIX_EPOCH)
+            .map(|t| t.as_secs())
+            .unwrap_or(0)
+    }
+
+    fn injected(what: &str) -> Error {
+        Error::Server(format!("injected object-store failure ({what})"))
+    }
+}
+
+fn hex(v: &[u8]) -> String {
+    // values of "latest" are ASCII; everything else is reported by length only
+    match std::str::from_utf8(v) {
+        Ok(s) if s.len() <= 64 && s.chars().all(|c| c.is_ascii_alphanumeric()) => s.to_string(),
+        _ => format!("#{}", v.len()),
+    }
+}
+
+#[async_trait]
+impl Service for MemService {
+    async fn put(&mut self, name: &str, value: &[u8]) -> Result<()> {
+        let f = self
+            .gate
+            .request(self.client, json!({"op":"put","name":name,"len":value.len()}))
+            .await;
+        if f == Fault::FailBefore {
+            self.gate.reply(self.client, json!({"res":"fail-before"}));
+            return Err(Self::injected("put"));
+        }
+        {
+            let mut s = self.store.lock().unwrap();
+            let creation = s.creation_for_new.unwrap_or_else(Self::now);
+            s.objects.insert(
+                name.to_string(),
+                MemObject {
+                    value: value.to_vec(),
+                    creation,
+                },
+            );
+        }
+        if f == Fault::FailAfter {
+            self.gate.reply(self.client, json!({"res":"fail-after"}));
+            return Err(Self::injected("put"));
+        }
+        self.gate.reply(self.client, json!({"res":"ok"}));
+        Ok(())
+    }
+
+    async fn get(&mut self, name: &str) -> Result<Option<Vec<u8>>> {
+        let f = self
+            .gate
+            .request(self.client, json!({"op":"get","name":name}))
+            .await;
+        if f != Fault::None {
+            self.gate.reply(self.client, json!({"res":"fail-before"}));
+            return Err(Self::injected("get"));
+        }
+        let v = self
+            .store
+            .lock()
+            .unwrap()
+            .objects
+            .get(name)
+            .map(|o| o.value.clone());
+        self.gate.reply(
+            self.client,
+            json!({"res":"ok","found":v.is_some(),"val":v.as_deref().map(hex).unwrap_or_default()}),
+        );
+        Ok(v)
+    }
+
+    async fn del(&mut self, name: &str) -> Result<()> {
+        let f = self
+            .gate
+            .request(self.client, json!({"op":"del","name":name}))
+            .await;
+        if f == Fault::FailBefore {
+            self.gate.reply(self.client, json!({"res":"fail-before"}));
+            return Err(Self::injected("del"));
+        }
+        let existed = self.store.lock().unwrap().objects.remove(name).is_some();
+        if f == Fault::FailAfter {
+            self.gate.reply(self.client, json!({"res":"fail-after"}));
+            return Err(Self::injected("del"));
+        }
+        self.gate
+            .reply(self.client, json!({"res":"ok","existed":existed}));
+        Ok(())
+    }
+
+    async fn list<'a>(&'a mut self, prefix: &'a str) -> Box<dyn AsyncObjectIterator + Send + 'a> {
+        Box::new(MemIter {
+            svc: self,
+            prefix: prefix.to_string(),
+            after: None,
+            page: Vec::new(),
+            done: false,
+        })
+    }
+
+    async fn compare_and_swap(
+        &mut self,
+        name: &str,
+        existing_value: Option<Vec<u8>>,
+        new_value: Vec<u8>,
+    ) -> Result<bool> {
+        let f = self
+            .gate
+            .request(
+                self.client,
+                json!({"op":"cas","name":name,
+                       "expect_some":existing_value.is_some(),
+                       "expect":existing_value.as_deref().map(hex).unwrap_or_default(),
+                       "new":hex(&new_value)}),
+            )
+            .await;
+        if f == Fault::FailBefore {
+            self.gate.reply(self.client, json!({"res":"fail-before"}));
+            return Err(Self::injected("compare_and_swap"));
+        }
+        let swapped = {
+            let mut s = self.store.lock().unwrap();
+            let cur = s.objects.get(name).map(|o| o.value.clone());
+            if cur == existing_value {
+                let creation = s.creation_for_new.unwrap_or_else(Self::now);
+                s.objects.insert(
+                    name.to_string(),
+                    MemObject {
+                        value: new_value,
+                        creation,
+                    },
+                );
+                true
+            } else {
+                false
+            }
+        };
+        if f == Fault::FailAfter {
+            self.gate
+                .reply(self.client, json!({"res":"fail-after","swapped":swapped}));
+            return Err(Self::injected("compare_and_swap"));
+        }
+        self.gate
+            .reply(self.client, json!({"res":"ok","swapped":swapped}));
+        Ok(swapped)
+    }
+}
+
+struct MemIter<'a> {
+    svc: &'a mut MemService,
+    prefix: String,
+    after: Option<String>,
+    page: Vec<ObjectInfo>,
+    done: bool,
+}
+
+#[async_trait]
+impl AsyncObjectIterator for MemIter<'_> {
+    async fn next(&mut self) -> Option<Result<ObjectInfo>> {
+        if self.page.is_empty() && !self.done {
+            // fetch the next page: the objects with the prefix, in name order, after the last
+            // name returned so far, as they exist now
+            let f = self
+                .svc
+                .gate
+                .request(
+                    self.svc.client,
+                    json!({"op":"list","prefix":self.prefix,
+                           "after":self.after.clone().unwrap_or_default()}),
+                )
+                .await;
+            if f != Fault::None {
+                self.done = true;
+                self.svc
+                    .gate
+                    .reply(self.svc.client, json!({"res":"fail-before"}));
+                return Some(Err(MemService::injected("list")));
+            }
+            let mut names = Vec::new();
+            {
+                let s = self.svc.store.lock().unwrap();
+                for (name, obj) in s.objects.iter() {
+                    if !name.starts_with(&self.prefix) {
+                        continue;
+                    }
+                    if let Some(a) = &self.after {
+                        if name <= a {
+                            continue;
+                        }
+                    }
+                    if self.page.len() >= self.svc.page_size {
+                        break;
+                    }
+                    names.push(name.clone());
+                    self.page.push(ObjectInfo {
+                        name: name.clone(),
+                        creation: obj.creation,
+                    });
+                }
+            }
+            if self.page.len() < self.svc.page_size {
+                self.done = true;
+            }
+            if let Some(last) = names.last() {
+                self.after = Some(last.clone());
+            }
+            self.svc.gate.reply(
+                self.svc.client,
+                json!({"res":"ok","names":names,"more":!self.done}),
+            );
+            self.page.reverse();
+        }
+        self.page.pop().map(Ok)
+    }
+}
+
+static DRAW: Mutex<Option<u8>> = Mutex::new(None);
+
+/// Set the value the next random draw (cleanup / snapshot urgency) will return.
+pub fn set_next_draw(v: Option<u8>) {
+    *DRAW.lock().unwrap() = v;
+}
+
+/// Whether the value set with [`set_next_draw`] has been consumed.
+pub fn draw_pending() -> bool {
+    DRAW.lock().unwrap().is_some()
+}
+
+pub(super) fn take_draw() -> Option<u8> {
+    DRAW.lock().unwrap().take()
+}
+
+static KEYS: Mutex<Option<HashMap<(Vec<u8>, Vec<u8>), Cryptor>>> = Mutex::new(None);
+
+pub(in crate::server) fn cryptor_for(salt: &[u8], secret: &[u8]) -> Result<Cryptor> {
+    let mut g = KEYS.lock().unwrap();
+    let m = g.get_or_insert_with(HashMap::new);
+    let k = (salt.to_vec(), secret.to_vec());
+    if let Some(c) = m.get(&k) {
+        return Ok(c.clone());
+    }
+    let c = Cryptor::new(salt, &secret.to_vec().into())?;
+    m.insert(k, c.clone());
+    Ok(c)
+}
+
+/// An object-store server over the given in-memory store. The salt object must already exist in
+/// the store (see [`init_store`]); the key derived from it and the secret is computed once per
+/// process and shared.
+pub fn cloud_server(
+    store: SharedStore,
+    gate: Box<dyn Gate>,
+    client: usize,
+    page_size: usize,
+    secret: &[u8],
+) -> Result<Box<dyn Server>> {
+    let salt = store
+        .lock()
+        .unwrap()
+        .objects
+        .get("salt")
+        .map(|o| o.value.clone())
+        .ok_or_else(|| Error::Server("store has no salt".into()))?;
+    let cryptor = cryptor_for(&salt, secret)?;
+    let service = MemService::new(store, gate, client, page_size);
+    Ok(Box::new(CloudServer::with_cryptor(service, cryptor)))
+}
+
+/// A new store containing only a salt object.
+pub fn init_store(salt: &[u8]) -> SharedStore {
+    let mut s = MemStore::default();
+    s.objects.insert(
+        "salt".to_string(),
+        MemObject {
+            value: salt.to_vec(),
+            creation: 0,
+        },
+    );
+    Arc::new(Mutex::new(s))
+}
